@@ -489,6 +489,10 @@ func c03(c *core.Ctx) {
 			c.Check(!early, "C03.R6", "pollMessageHandler|replay-until-drained", ipos(c, polls[0].Instr), "replay repeats until nothing is left", "new messages are polled although pollInflights reported that more in-flight messages remain")
 		}
 	}
+	// the acknowledged message is found whatever the order of the in-flight ids
+	memQueueIdsEqualityOnly(c, "C03.R1", "Remove")
+	memQueueIdsEqualityOnly(c, "C03.R1", "Replace")
+
 }
 
 // notifyDroppedAlwaysReported: scenario "expired in-flight PUBLISH of a connected client" - the drop must still reach notifyDropped.
